@@ -83,6 +83,21 @@ def c01(seed, tier):
                                         (100, 100, 6, 36.6, 8), (6, 200, 19, 1e9, 8)]],
                  gendoc=["//govalid:gt=5", "//govalid:lte=100"])
     scen.append(scenario("c01both", [lim], aux=[auxc]))
+    # bounds written as float literals with an integral value (valid untyped constants for integer fields): the comparison is
+    # exact integer comparison, also above 2^53
+    auxk, cents = named("Cents", i64)
+    big = [("Amount", basic("uint64"), "lte", "1e18", 10 ** 18), ("Seq", i64, "gt", "9.007199254740992e15", 2 ** 53), ("Limit", cents, "lt", "1e18", 10 ** 18),
+           ("Floor", i64, "gte", "-1e18", -10 ** 18), ("Small", basic("int32"), "lt", "1e3", 1000), ("Hex", basic("uint64"), "gte", "0x1p60", 2 ** 60),
+           ("Dot", i64, "lte", "5.0", 5)]
+    bfields = [fld(nm, ["//govalid:%s=%s" % (op, txt)], t) for nm, t, op, txt, _ in big]
+    bcases = []
+    for delta in (-65, -64, -2, -1, 0, 1, 2, 64, 65):
+        sets = []
+        for nm, t, op, txt, n in big:
+            lo, hi = int_range(t)
+            sets.append(set_int(nm, min(hi, max(lo, n + delta))))
+        bcases.append(case(sets))
+    scen.append(scenario("c01exp", [struct("Ledger", bfields, bcases)], aux=[auxk]))
     return {"scenarios": scen}
 
 
@@ -220,6 +235,15 @@ def c04(seed, tier):
         a, t = named(nm, under)
         aux.append(a)
         kinds.append((nm, t))
+    # aliases of collection types (an alias IS the collection type) and an alias of a named collection
+    for nm, under in (("ASl", SLICE), ("AMp", MAP), ("ACh", CHAN), ("AAr", array(4))):
+        a, t = alias(nm, under)
+        aux.append(a)
+        kinds.append((nm, t))
+    a, t = alias("ANSl", dict(SLICE, go="NSl"))
+    t["model"] = "TNamed (TSlice)"         # go/types' Underlying() resolves the whole chain
+    aux.append(a)
+    kinds.append(("ANSl", t))
     ns = [0, 1, 2, 3, 5]
     fields = []
     for marker in ("minitems", "maxitems"):
@@ -294,17 +318,24 @@ def c05(seed, tier):
     a2, level = named("Level", basic("int"))
     fields.append(fld("L", ["//govalid:enum=1,2,3"], level))
     values["L"] = [set_int("L", c) for c in (0, 1, 2, 3, 4, -1)]
-    for tn, lst in (("float64", "0.5,1,2.25"), ("float32", "-1.5, 0, 1e3")):
-        nm = "F_" + tn
-        fields.append(fld(nm, ["//govalid:enum=" + lst], basic(tn)))
+    a3, score = named("Score", basic("float32"))
+    for nm, tn, t, lst in (("F_float64", "float64", basic("float64"), "0.5,1,2.25"), ("F_float32", "float32", basic("float32"), "-1.5, 0, 1e3"),
+                           # gap-free runs of integers on float fields: membership is not a range test
+                           ("F_dense", "float64", basic("float64"), "1,2,3,4,5"), ("F_dense2", "float32", score, "3, 1, 4, 2"),
+                           ("F_dense3", "float64", basic("float64"), "-2,-1,0,1,2,3,4,5,6,7")):
+        fields.append(fld(nm, ["//govalid:enum=" + lst], t))
         items = [float(x) for x in lst.split(",")]
-        bits = float_lattice(tn, items)
+        bits = float_lattice(tn, items + [x + 0.5 for x in items] + [x + 0.25 for x in items[:3]])
         values[nm] = [(set_f32 if tn == "float32" else set_f64)(nm, b) for b in bits]
+    for nm, tn, lst in (("I_dense", "int", "1,2,3,4,5"), ("I_dense2", "uint8", "3, 1, 4, 2"), ("I_dense3", "int64", "-2,-1,0,1,2,3"), ("I_gap", "int", "1,2,3,5,6")):
+        fields.append(fld(nm, ["//govalid:enum=" + lst], basic(tn)))
+        items = [int(x) for x in lst.split(",")]
+        values[nm] = [set_int(nm, c) for c in range(min(items) - 2, max(items) + 3) if c >= 0 or tn != "uint8"]
     maxv = max(len(v) for v in values.values())
     cases = []
     for k in range(maxv):
         cases.append(case([vs[k % len(vs)] for vs in values.values()]))
-    return {"scenarios": [scenario("c05", [struct("T", fields, cases)], aux=[a, a2])]}
+    return {"scenarios": [scenario("c05", [struct("T", fields, cases)], aux=[a, a2, a3])]}
 
 
 FORMAT_MEMBERS = {
